@@ -212,6 +212,8 @@ class Action(object):
         }
         self._serializers = serializers
         self._finished = False
+        # Several threads may be logging in the context of the same action:
+        self._level_lock = threading.Lock()
 
     @property
     def task_uuid(self):
@@ -286,11 +288,12 @@ class Action(object):
 
         @return: The message's C{task_level}.
         """
-        if not self._last_child:
-            self._last_child = self._task_level.child()
-        else:
-            self._last_child = self._last_child.next_sibling()
-        return self._last_child
+        with self._level_lock:
+            if not self._last_child:
+                self._last_child = self._task_level.child()
+            else:
+                self._last_child = self._last_child.next_sibling()
+            return self._last_child
 
     def _start(self, fields):
         """
